@@ -186,6 +186,20 @@ def make_faults():
         return ("%s::%s" % (it["name"], m["name"]), 1)
     F.append(("two-writes", "param", two_writes))
 
+    def write_with_value(prog, draw):
+        """a method whose last parameter is a DiplomatWrite returns its string through it: besides the write it may only return (),
+        Option<()> or Result<(), E> (book: writeable.md). Anything else would silently lose the write parameter in the bindings."""
+        ms = [x for x in methods_of(prog) if not any(q[1][0] in ("write", "cb") for q in x[3]["params"])]
+        if not ms:
+            return None
+        mod, it, impl, m = draw(st.sampled_from(ms))
+        m["params"].append(["dv_w", ["write"], []])
+        shape = draw(st.sampled_from(["prim", "optprim", "okprim"]))
+        m["ret"] = {"prim": ["prim", "u8"], "optprim": ["opt", ["prim", "u8"], "std"], "okprim": ["result", ["prim", "u8"], ["unit"], "std"]}[shape]
+        red._fix_method_lifetimes(it, m)
+        return ("%s::%s" % (it["name"], m["name"]), 1), shape
+    F.append(("write-with-value-return", "return", write_with_value))
+
     # self
     def opaque_self_by_value(prog, draw):
         ms = [x for x in methods_of(prog) if x[1]["kind"] == "opaque"]
